@@ -1,12 +1,935 @@
-//! C10 — monitor not built yet (stub so that the registry is complete).
+//! C10 — optimizing normalization preserves program behaviour.
+//!
+//! Differential execution ("translation validation by running"): random basic-normalized
+//! functions are executed by the reference interpreter `irx` from random initial states
+//! before and after `normalize_optimize`, and before/after every single pass.
+
 use crate::core::*;
+use crate::irb::*;
+use crate::irx::{Ev, Machine, NoObserver, State};
+use crate::pref::V;
+use crate::prng::Rng;
+use cwe_checker_lib::analysis;
+use cwe_checker_lib::intermediate_representation::*;
+use serde_json::{json, Value};
 
 pub fn info() -> CheckInfo {
     CheckInfo {
         id: "C10",
-        rule: "(monitor not built yet)",
-        assumptions: &[],
-        run: |_cfg| Report::new(),
-        replay: |_cfg, _case| Report::new(),
+        rule: "random basic-normalized x86-64-style functions (register/flag/temporary arithmetic incl. the rewrite patterns of the optimizer, loads/stores via reg+-const, conditional chains over a small pool of shared conditions, empty forwarding blocks, stack-pointer adjustment and masking in the entry block, extern/internal/indirect calls, returns) executed by the independent interpreter irx from random initial states before and after each single optimisation pass and after the whole normalize_optimize pipeline; observable trace = loads/stores (address,size,value), calls/indirect jumps/returns with targets, register+memory digest at every call, return and dead end. non-trivial = the optimised program differs from the input and the compared trace contains at least one memory event or call; distinct = hash of the program",
+        assumptions: &[
+            "irx/pref are a correct reading of the IR / P-Code semantics; calls are opaque and havoc caller-saved registers identically in both runs",
+            "temporaries are defined before use inside their block; conditions and flags hold 0/1; the stack pointer is a multiple of 2^16 at function entry; masks on the stack pointer are -2^k with k<=8; no load into the stack pointer",
+            "the value of a return-target expression is not an observable (statement: targets of calls, indirect jumps and returns are compared, the return expression is not evaluated)",
+        ],
+        run,
+        replay,
     }
+}
+
+const REGS8: &[&str] = &["RAX", "RBX", "RCX", "RDX", "RSI", "RDI", "RBP"];
+const ADDR_REGS: &[&str] = &["RSP", "RBP", "RBX", "RDI", "RSI"];
+
+pub struct FnGen<'a> {
+    pub rng: &'a mut Rng,
+    counter: u32,
+    temps8: Vec<Variable>,
+    temps4: Vec<Variable>,
+    temps1: Vec<Variable>,
+    cond_pool: Vec<Expression>,
+    pub exotic: bool,
+    /// generate CALLOTHER jumps with return targets (they have no edge in the CFG)
+    pub callother: bool,
+}
+
+impl<'a> FnGen<'a> {
+    pub fn new(rng: &'a mut Rng) -> FnGen<'a> {
+        FnGen { rng, counter: 0, temps8: vec![], temps4: vec![], temps1: vec![], cond_pool: vec![], exotic: false, callother: false }
+    }
+
+    fn fresh(&mut self, prefix: &str) -> Tid {
+        self.counter += 1;
+        tid(&format!("{prefix}_{}", self.counter), &format!("{:04x}", 0x1000 + self.counter * 4))
+    }
+
+    fn small_const(&mut self) -> i64 {
+        match self.rng.below(8) {
+            0 => 0,
+            1 => 1,
+            2 => -1,
+            3 => 8,
+            4 => -8,
+            5 => 16,
+            6 => self.rng.range_i64(-130, 130),
+            _ => self.rng.biased(8) as i64,
+        }
+    }
+
+    pub fn e8(&mut self, depth: u32) -> Expression {
+        use BinOpType::*;
+        if depth == 0 || self.rng.chance(1, 3) {
+            return match self.rng.below(10) {
+                0..=5 => e_reg(*self.rng.pick(REGS8)),
+                6 if !self.temps8.is_empty() => e_var(&self.rng.pick(&self.temps8).clone()),
+                _ => {
+                    let c = self.small_const();
+                    e_const(c, 8)
+                }
+            };
+        }
+        match self.rng.below(16) {
+            0..=4 => {
+                let op = *self.rng.pick(&[IntAdd, IntSub, IntAnd, IntOr, IntXOr, IntMult, IntAdd, IntSub]);
+                let l = self.e8(depth - 1);
+                let r = self.e8(depth - 1);
+                e_bin(op, l, r)
+            }
+            5 => {
+                // same operand on both sides: a^a, a-a, a|a, a&a
+                let op = *self.rng.pick(&[IntXOr, IntSub, IntOr, IntAnd]);
+                let a = self.e8(depth - 1);
+                e_bin(op, a.clone(), a)
+            }
+            6 => {
+                // with neutral / absorbing constants
+                let a = self.e8(depth - 1);
+                let (op, c) = *self.rng.pick(&[(IntOr, 0i64), (IntXOr, 0), (IntAnd, -1), (IntAnd, 0), (IntAdd, 0), (IntSub, 0), (IntOr, -1), (IntMult, 1)]);
+                if self.rng.bool() {
+                    e_bin(op, a, e_const(c, 8))
+                } else if op != IntSub {
+                    e_bin(op, e_const(c, 8), a)
+                } else {
+                    e_bin(op, a, e_const(c, 8))
+                }
+            }
+            7 => {
+                // nested constant arithmetic (x +- c1) +- c2
+                let a = self.e8(depth - 1);
+                let (c1, c2) = (self.small_const(), self.small_const());
+                let op1 = *self.rng.pick(&[IntAdd, IntSub]);
+                let op2 = *self.rng.pick(&[IntAdd, IntSub]);
+                let inner = if self.rng.chance(1, 4) { e_bin(op1, e_const(c1, 8), a) } else { e_bin(op1, a, e_const(c1, 8)) };
+                e_bin(op2, inner, e_const(c2, 8))
+            }
+            8 => {
+                let op = *self.rng.pick(&[UnOpType::IntNegate, UnOpType::Int2Comp]);
+                let a = self.e8(depth - 1);
+                if self.rng.bool() {
+                    e_un(op, e_un(op, a))
+                } else {
+                    e_un(op, a)
+                }
+            }
+            9 => {
+                let op = *self.rng.pick(&[IntLeft, IntRight, IntSRight]);
+                let a = self.e8(depth - 1);
+                let amount = *self.rng.pick(&[0i64, 1, 3, 8, 31, 63, 64, 65]);
+                e_bin(op, a, e_const(amount, 1))
+            }
+            10 => {
+                let op = *self.rng.pick(&[CastOpType::IntZExt, CastOpType::IntSExt]);
+                let a = self.e4(depth - 1);
+                if self.rng.chance(1, 3) {
+                    // cast of cast (same op) 4 -> 6 -> 8 is unusual; use 2 -> 4 -> 8 via subpiece
+                    let inner = e_cast(op, 4, e_subpiece(0, 2, a));
+                    e_cast(op, 8, inner)
+                } else {
+                    e_cast(op, 8, a)
+                }
+            }
+            11 => {
+                let hi = self.e4(depth - 1);
+                let lo = self.e4(depth - 1);
+                e_bin(Piece, hi, lo)
+            }
+            12 => {
+                // zero-extended boolean
+                let b = self.e1(depth - 1);
+                e_cast(CastOpType::IntZExt, 8, b)
+            }
+            13 => {
+                let a = self.e8(depth - 1);
+                e_cast(*self.rng.pick(&[CastOpType::PopCount, CastOpType::LzCount]), 8, a)
+            }
+            14 => {
+                // extension to the same size (trivial cast) / full subpiece
+                let a = self.e8(depth - 1);
+                if self.rng.bool() {
+                    e_cast(CastOpType::IntZExt, 8, a)
+                } else {
+                    e_subpiece(0, 8, a)
+                }
+            }
+            _ => e_reg(*self.rng.pick(REGS8)),
+        }
+    }
+
+    pub fn e4(&mut self, depth: u32) -> Expression {
+        if depth == 0 || self.rng.chance(1, 3) {
+            return match self.rng.below(6) {
+                0 if !self.temps4.is_empty() => e_var(&self.rng.pick(&self.temps4).clone()),
+                0 | 1 => e_const(self.rng.biased(4) as i64, 4),
+                2 => e_subpiece(4, 4, e_reg(*self.rng.pick(REGS8))),
+                _ => e_subpiece(0, 4, e_reg(*self.rng.pick(REGS8))),
+            };
+        }
+        match self.rng.below(6) {
+            0 => {
+                let op = *self.rng.pick(&[BinOpType::IntAdd, BinOpType::IntSub, BinOpType::IntXOr, BinOpType::IntAnd]);
+                let l = self.e4(depth - 1);
+                let r = self.e4(depth - 1);
+                e_bin(op, l, r)
+            }
+            1 => {
+                // subpiece of an extension of exactly this size
+                let a = self.e4(depth - 1);
+                let op = *self.rng.pick(&[CastOpType::IntZExt, CastOpType::IntSExt]);
+                e_subpiece(0, 4, e_cast(op, 8, a))
+            }
+            2 => {
+                // subpiece of piece
+                let hi = self.e4(depth - 1);
+                let lo = self.e4(depth - 1);
+                let low = *self.rng.pick(&[0u32, 4, 2]);
+                e_subpiece(low, 4, e_bin(BinOpType::Piece, hi, lo))
+            }
+            3 => {
+                // subpiece of subpiece
+                let a = self.e8(depth - 1);
+                let l1 = *self.rng.pick(&[0u32, 1, 2]);
+                let l2 = *self.rng.pick(&[0u32, 1, 2]);
+                e_subpiece(l2, 4, e_subpiece(l1, 6, a))
+            }
+            _ => {
+                let low = *self.rng.pick(&[0u32, 4, 1, 3]);
+                let a = self.e8(depth - 1);
+                e_subpiece(low, 4, a)
+            }
+        }
+    }
+
+    fn flag(&mut self) -> Expression {
+        e_var(&var(*self.rng.pick(FLAGS), 1))
+    }
+
+    pub fn e1(&mut self, depth: u32) -> Expression {
+        use BinOpType::*;
+        if depth == 0 || self.rng.chance(1, 4) {
+            return match self.rng.below(6) {
+                0 if !self.temps1.is_empty() => e_var(&self.rng.pick(&self.temps1).clone()),
+                0 => e_const(self.rng.below(2) as i64, 1),
+                _ => self.flag(),
+            };
+        }
+        match self.rng.below(14) {
+            0 | 1 => {
+                let op = *self.rng.pick(&[IntEqual, IntNotEqual, IntLess, IntSLess, IntLessEqual, IntSLessEqual, IntCarry, IntSCarry, IntSBorrow]);
+                let (l, r) = if self.rng.bool() { (self.e8(depth - 1), self.e8(depth - 1)) } else { (self.e4(depth - 1), self.e4(depth - 1)) };
+                e_bin(op, l, r)
+            }
+            2 | 3 => {
+                // (a - b) ==/!= 0/1, constant on either side
+                let a = self.e8(depth - 1);
+                let b = self.e8(depth - 1);
+                let op = *self.rng.pick(&[IntEqual, IntNotEqual]);
+                let c = e_const(*self.rng.pick(&[0i64, 0, 1, 1, 2, -1]), 8);
+                let diff = e_bin(IntSub, a, b);
+                if self.rng.bool() {
+                    e_bin(op, diff, c)
+                } else {
+                    e_bin(op, c, diff)
+                }
+            }
+            4 => {
+                // (a < b) || (a == b)  and variants with swapped operands / mixed signedness
+                let a = self.e8(depth - 1);
+                let b = self.e8(depth - 1);
+                let less = *self.rng.pick(&[IntSLess, IntLess]);
+                let (ea, eb) = if self.rng.chance(1, 3) { (b.clone(), a.clone()) } else { (a.clone(), b.clone()) };
+                let l = e_bin(less, a, b);
+                let r = e_bin(IntEqual, ea, eb);
+                if self.rng.bool() {
+                    e_bin(BoolOr, l, r)
+                } else {
+                    e_bin(BoolOr, r, l)
+                }
+            }
+            5 => {
+                // (a <= b) && (a != b)
+                let a = self.e8(depth - 1);
+                let b = self.e8(depth - 1);
+                let le = *self.rng.pick(&[IntSLessEqual, IntLessEqual]);
+                let (ea, eb) = if self.rng.chance(1, 3) { (b.clone(), a.clone()) } else { (a.clone(), b.clone()) };
+                let l = e_bin(le, a, b);
+                let r = e_bin(IntNotEqual, ea, eb);
+                if self.rng.bool() {
+                    e_bin(BoolAnd, l, r)
+                } else {
+                    e_bin(BoolAnd, r, l)
+                }
+            }
+            6 => {
+                // ((a - b) s< 0) !=/== sborrow(a, b)   (the x86 SF != OF idiom)
+                let a = self.e8(depth - 1);
+                let b = self.e8(depth - 1);
+                let (sa, sb) = if self.rng.chance(1, 4) { (b.clone(), a.clone()) } else { (a.clone(), b.clone()) };
+                let lt = e_bin(IntSLess, e_bin(IntSub, a, b), e_const(if self.rng.chance(1, 6) { 1 } else { 0 }, 8));
+                let sbo = e_bin(IntSBorrow, sa, sb);
+                let op = *self.rng.pick(&[IntNotEqual, IntEqual]);
+                if self.rng.bool() {
+                    e_bin(op, lt, sbo)
+                } else {
+                    e_bin(op, sbo, lt)
+                }
+            }
+            7 | 8 => {
+                let a = self.e1(depth - 1);
+                if self.rng.chance(1, 3) {
+                    e_un(UnOpType::BoolNegate, e_un(UnOpType::BoolNegate, a))
+                } else {
+                    e_un(UnOpType::BoolNegate, a)
+                }
+            }
+            9 | 10 => {
+                let op = *self.rng.pick(&[BoolAnd, BoolOr, BoolXOr]);
+                let a = self.e1(depth - 1);
+                let b = if self.rng.bool() { e_const(self.rng.below(2) as i64, 1) } else { self.e1(depth - 1) };
+                if self.rng.bool() {
+                    e_bin(op, a, b)
+                } else {
+                    e_bin(op, b, a)
+                }
+            }
+            11 => {
+                // same bool on both sides
+                let a = self.e1(depth - 1);
+                let op = *self.rng.pick(&[BoolAnd, BoolOr, BoolXOr, IntEqual, IntNotEqual]);
+                e_bin(op, a.clone(), a)
+            }
+            _ => self.flag(),
+        }
+    }
+
+    fn addr(&mut self) -> Expression {
+        let r = *self.rng.pick(ADDR_REGS);
+        let off = *self.rng.pick(&[0i64, 8, -8, 16, -16, 4, -4, 24]);
+        if self.rng.chance(1, 8) {
+            let inner = self.e8(1);
+            e_bin(BinOpType::IntAdd, inner, e_const(off, 8))
+        } else if self.rng.chance(1, 6) && off != 0 {
+            e_bin(BinOpType::IntSub, e_reg(r), e_const(-off, 8))
+        } else {
+            e_reg_off(r, off)
+        }
+    }
+
+    fn def(&mut self, defs: &mut Vec<Term<Def>>) {
+        let t = self.fresh("def");
+        match self.rng.below(20) {
+            0..=6 => {
+                let target = reg(*self.rng.pick(REGS8));
+                let e = self.e8(3);
+                defs.push(assign(t, target, e));
+            }
+            7 | 8 => {
+                let target = var(*self.rng.pick(FLAGS), 1);
+                let e = self.e1(3);
+                defs.push(assign(t, target, e));
+            }
+            9 | 10 => {
+                // new temporary
+                let which = self.rng.below(3);
+                let name = format!("$U{}", self.counter);
+                match which {
+                    0 => {
+                        let e = self.e8(2);
+                        let v = tmp(&name, 8);
+                        defs.push(assign(t, v.clone(), e));
+                        self.temps8.push(v);
+                    }
+                    1 => {
+                        let e = self.e4(2);
+                        let v = tmp(&name, 4);
+                        defs.push(assign(t, v.clone(), e));
+                        self.temps4.push(v);
+                    }
+                    _ => {
+                        let e = self.e1(2);
+                        let v = tmp(&name, 1);
+                        defs.push(assign(t, v.clone(), e));
+                        self.temps1.push(v);
+                    }
+                }
+            }
+            11..=13 => {
+                let a = self.addr();
+                if self.rng.chance(1, 3) {
+                    let name = format!("$U{}", self.counter);
+                    if self.rng.bool() {
+                        let v = tmp(&name, 8);
+                        defs.push(load(t, v.clone(), a));
+                        self.temps8.push(v);
+                    } else {
+                        let v = tmp(&name, 4);
+                        defs.push(load(t, v.clone(), a));
+                        self.temps4.push(v);
+                    }
+                } else {
+                    defs.push(load(t, reg(*self.rng.pick(REGS8)), a));
+                }
+            }
+            14..=16 => {
+                let a = self.addr();
+                let v = match self.rng.below(4) {
+                    0 => self.e4(2),
+                    1 => self.e1(2),
+                    _ => self.e8(2),
+                };
+                defs.push(store(t, a, v));
+            }
+            17 => {
+                // register copy chains (food for expression propagation)
+                let a = reg(*self.rng.pick(REGS8));
+                let b = reg(*self.rng.pick(REGS8));
+                defs.push(assign(t, a, e_var(&b)));
+            }
+            18 => {
+                // stack pointer adjustment
+                let c = *self.rng.pick(&[8i64, 16, 24, 32, 128]);
+                let op = *self.rng.pick(&[BinOpType::IntSub, BinOpType::IntAdd]);
+                defs.push(assign(t, reg("RSP"), e_bin(op, e_reg("RSP"), e_const(c, 8))));
+            }
+            _ => {
+                // assignment depending on its own target
+                let r = *self.rng.pick(REGS8);
+                let c = self.small_const();
+                defs.push(assign(t, reg(r), e_bin(BinOpType::IntAdd, e_reg(r), e_const(c, 8))));
+            }
+        }
+    }
+
+    fn entry_prologue(&mut self, defs: &mut Vec<Term<Def>>) {
+        // push rbp; mov rbp, rsp; sub rsp, c; and rsp, -2^k   (in random subsets/orders)
+        let n = self.rng.below(5);
+        for _ in 0..n {
+            let t = self.fresh("def");
+            match self.rng.below(6) {
+                0 => {
+                    defs.push(assign(t, reg("RSP"), e_bin(BinOpType::IntSub, e_reg("RSP"), e_const(8, 8))));
+                    let t2 = self.fresh("def");
+                    defs.push(store(t2, e_reg("RSP"), e_reg("RBP")));
+                }
+                1 => defs.push(assign(t, reg("RBP"), e_reg("RSP"))),
+                2 => {
+                    let c = *self.rng.pick(&[8i64, 16, 24, 40, 100, 256]);
+                    let op = *self.rng.pick(&[BinOpType::IntSub, BinOpType::IntSub, BinOpType::IntAdd]);
+                    if self.rng.chance(1, 5) && op == BinOpType::IntAdd {
+                        defs.push(assign(t, reg("RSP"), e_bin(op, e_const(c, 8), e_reg("RSP"))));
+                    } else {
+                        defs.push(assign(t, reg("RSP"), e_bin(op, e_reg("RSP"), e_const(c, 8))));
+                    }
+                }
+                3 | 4 => {
+                    let k = *self.rng.pick(&[3u32, 4, 4, 4, 5, 6, 8]);
+                    let mask = -(1i64 << k);
+                    let src = if self.exotic && self.rng.chance(1, 6) { "RBP" } else { "RSP" };
+                    if self.rng.chance(1, 4) {
+                        defs.push(assign(t, reg("RSP"), e_bin(BinOpType::IntAnd, e_const(mask, 8), e_reg(src))));
+                    } else {
+                        defs.push(assign(t, reg("RSP"), e_bin(BinOpType::IntAnd, e_reg(src), e_const(mask, 8))));
+                    }
+                }
+                _ => self.def(defs),
+            }
+        }
+    }
+
+    fn condition(&mut self) -> Expression {
+        if !self.cond_pool.is_empty() && self.rng.chance(3, 4) {
+            let c = self.rng.pick(&self.cond_pool).clone();
+            if self.rng.chance(1, 3) {
+                e_un(UnOpType::BoolNegate, c)
+            } else {
+                c
+            }
+        } else {
+            let c = if self.rng.chance(2, 3) { self.flag() } else { self.e1(2) };
+            // conditions in the pool must not depend on temporaries (they are block-local)
+            if c.input_vars().iter().all(|v| !v.is_temp) {
+                self.cond_pool.push(c.clone());
+            }
+            c
+        }
+    }
+
+    /// Generate one function. `callees`: tids of internal subs that may be called; `externs`: extern tids.
+    pub fn function(&mut self, name: &str, callees: &[Tid], externs: &[Tid]) -> Term<Sub> {
+        let n = self.rng.range_usize(1, 9);
+        let blk_tids: Vec<Tid> = (0..n).map(|i| tid(&format!("blk_{name}_{i}"), &format!("{name}{i:02}"))).collect();
+        self.cond_pool.clear();
+        let mut blocks = Vec::new();
+        let mut entry_is_target_ok_flag = true;
+        for i in 0..n {
+            self.temps8.clear();
+            self.temps4.clear();
+            self.temps1.clear();
+            let mut defs = Vec::new();
+            let forwarding = i > 0 && self.rng.chance(1, 6);
+            if i == 0 {
+                self.entry_prologue(&mut defs);
+                // Domain guard: an entry block that aligns the stack pointer by masking is executed exactly once
+                // (the stack alignment substitution relies on the stack offset at function entry).
+                entry_is_target_ok_flag = !defs.iter().any(|d| matches!(&d.term, Def::Assign { value: Expression::BinOp { op: BinOpType::IntAnd, .. }, var } if var.name == "RSP"));
+                if n == 1 && !entry_is_target_ok_flag {
+                    defs.retain(|d| !matches!(&d.term, Def::Assign { value: Expression::BinOp { op: BinOpType::IntAnd, .. }, var } if var.name == "RSP"));
+                    entry_is_target_ok_flag = true;
+                }
+            }
+            if !forwarding {
+                let nd = self.rng.below(6);
+                for _ in 0..nd {
+                    self.def(&mut defs);
+                }
+            }
+            let entry_is_target_ok = entry_is_target_ok_flag;
+            let pick_target = |rng: &mut Rng| -> Tid {
+                // forward-biased, loops possible
+                if i + 1 < n && rng.chance(3, 4) {
+                    blk_tids[rng.range_usize(i + 1, n - 1)].clone()
+                } else if entry_is_target_ok || n == 1 {
+                    blk_tids[rng.usize_below(n)].clone()
+                } else {
+                    blk_tids[rng.range_usize(1, n - 1)].clone()
+                }
+            };
+            let mut jmps = Vec::new();
+            let last = i + 1 == n;
+            let choice = if forwarding { 0 } else { self.rng.below(20) };
+            match choice {
+                0..=4 if !last || forwarding => {
+                    let t = pick_target(self.rng);
+                    jmps.push(jmp(self.fresh("jmp"), Jmp::Branch(t)));
+                }
+                5..=11 if !last => {
+                    let c = self.condition();
+                    let t1 = pick_target(self.rng);
+                    let t2 = pick_target(self.rng);
+                    jmps.push(jmp(self.fresh("jmp"), Jmp::CBranch { target: t1, condition: c }));
+                    jmps.push(jmp(self.fresh("jmp"), Jmp::Branch(t2)));
+                }
+                12 | 13 if !externs.is_empty() => {
+                    let target = self.rng.pick(externs).clone();
+                    let ret = if last || self.rng.chance(1, 8) { None } else { Some(pick_target(self.rng)) };
+                    jmps.push(jmp(self.fresh("call"), Jmp::Call { target, return_: ret }));
+                }
+                14 if !callees.is_empty() => {
+                    let target = self.rng.pick(callees).clone();
+                    let ret = if last { None } else { Some(pick_target(self.rng)) };
+                    jmps.push(jmp(self.fresh("call"), Jmp::Call { target, return_: ret }));
+                }
+                15 => {
+                    let target = self.e8(1);
+                    let ret = if last || self.rng.chance(1, 8) { None } else { Some(pick_target(self.rng)) };
+                    jmps.push(jmp(self.fresh("call"), Jmp::CallInd { target, return_: ret }));
+                }
+                16 if !last && self.callother => {
+                    let ret = Some(pick_target(self.rng));
+                    jmps.push(jmp(self.fresh("call"), Jmp::CallOther { description: "CALLOTHER(cpuid)".to_string(), return_: ret }));
+                }
+                17 => {
+                    let target = self.e8(1);
+                    jmps.push(jmp(self.fresh("jmp"), Jmp::BranchInd(target)));
+                }
+                _ => {
+                    // return: ret address loaded into a temporary, RSP adjusted
+                    if self.rng.bool() {
+                        let v = tmp(&format!("$Uret{}", self.counter), 8);
+                        defs.push(load(self.fresh("def"), v.clone(), e_reg("RSP")));
+                        defs.push(assign(self.fresh("def"), reg("RSP"), e_bin(BinOpType::IntAdd, e_reg("RSP"), e_const(8, 8))));
+                        jmps.push(jmp(self.fresh("jmp"), Jmp::Return(e_var(&v))));
+                    } else {
+                        jmps.push(jmp(self.fresh("jmp"), Jmp::Return(e_reg("RAX"))));
+                    }
+                }
+            }
+            blocks.push(blk(blk_tids[i].clone(), defs, jmps));
+        }
+        sub(tid(&format!("sub_{name}"), &format!("{name}00")), name, blocks)
+    }
+}
+
+pub fn gen_project(rng: &mut Rng, exotic: bool, callother: bool) -> Project {
+    let ext_a = tid("sub_ext_a", "ext_a");
+    let ext_b = tid("sub_ext_b", "ext_b");
+    let ext_exit = tid("sub_ext_exit", "ext_exit");
+    let mut externs = vec![
+        extern_symbol("ext_a", ext_a.clone(), &["RDI"], Some("RAX"), false),
+        extern_symbol("ext_b", ext_b.clone(), &["RDI", "RSI"], None, false),
+    ];
+    let mut ext_tids = vec![ext_a, ext_b];
+    if rng.chance(1, 3) {
+        externs.push(extern_symbol("exit", ext_exit.clone(), &["RDI"], None, true));
+        ext_tids.push(ext_exit);
+    }
+    let mut g = FnGen::new(rng);
+    g.exotic = exotic;
+    g.callother = callother;
+    let mut subs = Vec::new();
+    let callee_tid = tid("sub_callee", "callee00");
+    let with_callee = g.rng.chance(1, 2);
+    let callees: Vec<Tid> = if with_callee { vec![callee_tid.clone()] } else { vec![] };
+    let main = g.function("main", &callees, &ext_tids);
+    subs.push(main);
+    if with_callee {
+        let callee = g.function("callee", &callees, &ext_tids);
+        subs.push(callee);
+    }
+    let entry = subs[0].tid.clone();
+    let mut project = project_x64(program(subs, externs, Some(entry)));
+    let _ = project.normalize_basic();
+    project
+}
+
+pub fn machine_for(project: &Project, seed: u64) -> Machine {
+    let mut m = Machine::new(seed);
+    let cconv = project.calling_conventions.get("__stdcall").unwrap();
+    m.havoc_regs = project
+        .register_set
+        .iter()
+        .filter(|r| !cconv.callee_saved_register.contains(r))
+        .cloned()
+        .collect();
+    m.digest_regs = Some(project.register_set.iter().cloned().collect());
+    m.max_blocks = 120;
+    m
+}
+
+pub fn initial_state(rng: &mut Rng, project: &Project) -> State {
+    let mut st = State::default();
+    for r in project.register_set.iter() {
+        let w = u64::from(r.size) as u32;
+        let v = if w == 1 {
+            rng.below(2) as u128
+        } else if r.name == "RSP" {
+            // aligned stack pointer at function entry
+            ((rng.next_u64() >> 20) << 16) as u128 | 0x7000_0000_0000
+        } else if rng.chance(1, 4) {
+            // another register as alias / near the stack
+            (0x7000_0000_0000u64 + ((rng.below(64)) << 3)) as u128
+        } else {
+            rng.biased(w)
+        };
+        st.vars.insert(r.clone(), V::new(v, w));
+    }
+    // make some registers equal to each other (a-b==0 patterns)
+    if rng.bool() {
+        let a = reg(*rng.pick(REGS8));
+        let b = reg(*rng.pick(REGS8));
+        let va = st.vars[&a];
+        let delta = *rng.pick(&[0u128, 0, 1, 2, u64::MAX as u128]);
+        st.vars.insert(b, V::new(va.v.wrapping_add(delta), 8));
+    }
+    st
+}
+
+fn ev_kind(e: &Ev) -> &'static str {
+    match e {
+        Ev::Load { .. } => "load",
+        Ev::Store { .. } => "store",
+        Ev::Call { .. } => "call",
+        Ev::BranchInd { .. } => "branchind",
+        Ev::Return { .. } => "return",
+        Ev::DeadEnd { .. } => "deadend",
+        Ev::Undefined { .. } => "undefined",
+        Ev::NullAbort { .. } => "nullabort",
+        Ev::Capped => "capped",
+    }
+}
+
+fn ev_equal(a: &Ev, b: &Ev) -> bool {
+    match (a, b) {
+        (Ev::DeadEnd { digest: d1, .. }, Ev::DeadEnd { digest: d2, .. }) => d1 == d2,
+        _ => a == b,
+    }
+}
+
+pub enum Cmp {
+    Equal,
+    /// one of the runs hit the step cap and the common prefix agrees
+    Inconclusive,
+    Differ { index: usize, what: String },
+}
+
+pub fn compare_traces(t0: &[Ev], t1: &[Ev]) -> Cmp {
+    let capped0 = matches!(t0.last(), Some(Ev::Capped));
+    let capped1 = matches!(t1.last(), Some(Ev::Capped));
+    let n0 = if capped0 { t0.len() - 1 } else { t0.len() };
+    let n1 = if capped1 { t1.len() - 1 } else { t1.len() };
+    let n = n0.min(n1);
+    for i in 0..n {
+        if !ev_equal(&t0[i], &t1[i]) {
+            return Cmp::Differ { index: i, what: format!("{}-vs-{}", ev_kind(&t0[i]), ev_kind(&t1[i])) };
+        }
+    }
+    if !capped0 && !capped1 {
+        if n0 != n1 {
+            let what = if n0 > n1 { format!("{}-vs-end", ev_kind(&t0[n])) } else { format!("end-vs-{}", ev_kind(&t1[n])) };
+            return Cmp::Differ { index: n, what };
+        }
+        return Cmp::Equal;
+    }
+    // at least one capped: the uncapped one must not be shorter than the common prefix of the capped one
+    if !capped0 && n0 < n1 {
+        return Cmp::Differ { index: n, what: format!("end-vs-{}", ev_kind(&t1[n])) };
+    }
+    if !capped1 && n1 < n0 {
+        return Cmp::Differ { index: n, what: format!("{}-vs-end", ev_kind(&t0[n])) };
+    }
+    if capped0 && capped1 {
+        Cmp::Equal // both capped, common prefix agrees
+    } else {
+        Cmp::Inconclusive
+    }
+}
+
+pub const PASSES: &[&str] = &["expression_propagation", "trivial_expression_substitution", "dead_variable_elimination", "control_flow_propagation", "stack_alignment_substitution"];
+
+pub fn apply_pass(project: &mut Project, pass: &str) {
+    match pass {
+        "expression_propagation" => analysis::expression_propagation::propagate_input_expression(project),
+        "trivial_expression_substitution" => project.substitute_trivial_expressions(),
+        "dead_variable_elimination" => analysis::dead_variable_elimination::remove_dead_var_assignments(project),
+        "control_flow_propagation" => propagate_control_flow::propagate_control_flow(project),
+        "stack_alignment_substitution" => {
+            let _ = analysis::stack_alignment_substitution::substitute_and_on_stackpointer(project);
+        }
+        "normalize_optimize" => {
+            let _ = project.normalize_optimize();
+        }
+        _ => panic!("unknown pass"),
+    }
+}
+
+fn has_undefined(t: &[Ev]) -> bool {
+    matches!(t.last(), Some(Ev::Undefined { .. }))
+}
+
+/// Compare `before` and `after` on `n_states` initial states. Returns number of non-trivial compared traces.
+#[allow(clippy::too_many_arguments)]
+pub fn compare_versions(
+    before: &Project,
+    after: &Project,
+    label: &str,
+    state_seed: u64,
+    n_states: usize,
+    rep: &mut Report,
+    case: &dyn Fn() -> Value,
+) -> bool {
+    let mut interesting = false;
+    for (sub_tid, sub0) in before.program.term.subs.iter() {
+        if sub_tid.is_artificial_sink_sub() {
+            continue;
+        }
+        let sub1 = match after.program.term.subs.get(sub_tid) {
+            Some(s) => s,
+            None => {
+                rep.violation(format!("{label}:sub-removed"), None, format!("function {sub_tid} disappeared after {label}"), case(), 1000);
+                continue;
+            }
+        };
+        for k in 0..n_states {
+            let mut rng = Rng::derive(state_seed, "c10-state", k as u64);
+            let st0 = initial_state(&mut rng, before);
+            let m = machine_for(before, rng.next_u64());
+            let mut s0 = st0.clone();
+            let mut s1 = st0.clone();
+            let t0 = m.run_sub(sub0, &mut s0, &mut NoObserver);
+            rep.eval();
+            if has_undefined(&t0) {
+                rep.inconclusive("original-program-undefined");
+                if let Some(Ev::Undefined { what }) = t0.last() {
+                    rep.note(format!("undefined behaviour in an original program: {what}"));
+                }
+                continue;
+            }
+            let t1 = match guard(|| m.run_sub(sub1, &mut s1, &mut NoObserver)) {
+                Ok(t) => t,
+                Err(p) => {
+                    rep.inconclusive(&format!("harness-panic:{}", panic_site(&p)));
+                    continue;
+                }
+            };
+            match compare_traces(&t0, &t1) {
+                Cmp::Equal => {
+                    if t0.iter().any(|e| matches!(e, Ev::Load { .. } | Ev::Store { .. } | Ev::Call { .. })) {
+                        interesting = true;
+                    }
+                    rep.obs(&format!("{label}:equal"));
+                }
+                Cmp::Inconclusive => rep.inconclusive("step-cap-hit-in-only-one-version"),
+                Cmp::Differ { index, what } => {
+                    let show = |t: &[Ev]| -> String {
+                        let lo = index.saturating_sub(2);
+                        t.iter().enumerate().skip(lo).take(5).map(|(i, e)| format!("    [{i}] {e:?}")).collect::<Vec<_>>().join("\n")
+                    };
+                    let detail = format!(
+                        "after pass '{label}' function {sub_tid} behaves differently from initial state #{k} (state seed {state_seed}): first difference at event {index} ({what})\n  before:\n{}\n  after:\n{}\n--- function before:\n{}--- function after:\n{}",
+                        show(&t0), show(&t1), show_sub(sub0), show_sub(sub1)
+                    );
+                    let size = sub0.term.blocks.iter().map(|b| 2 + b.term.defs.len() as u64).sum::<u64>() * 4 + before.program.term.subs.len() as u64;
+                    rep.violation(format!("{label}:{what}"), None, detail, case(), size);
+                }
+            }
+        }
+    }
+    interesting
+}
+
+/// Check one generated project: each pass alone, the cumulative pipeline step by step, and normalize_optimize as a whole.
+pub fn check_project(base: &Project, state_seed: u64, n_states: usize, rep: &mut Report) {
+    let case = || json!({"project": project_to_json(base), "state_seed": state_seed, "n_states": n_states});
+    let mut any_change = false;
+    let mut interesting = false;
+    // single passes on the base program
+    for pass in PASSES {
+        let mut p = base.clone();
+        match guard(|| apply_pass(&mut p, pass)) {
+            Ok(()) => (),
+            Err(msg) => {
+                rep.violation(format!("{pass}:panic:{}", panic_site(&msg)), None, format!("pass {pass} panicked: {msg}\n{}", show_program(&base.program.term)), case(), 500);
+                continue;
+            }
+        }
+        if p != *base {
+            any_change = true;
+            rep.obs(&format!("{pass}:changed-program"));
+            interesting |= compare_versions(base, &p, pass, state_seed, n_states, rep, &case);
+        }
+    }
+    // cumulative pipeline
+    let mut cur = base.clone();
+    for pass in PASSES {
+        let mut next = cur.clone();
+        match guard(|| apply_pass(&mut next, pass)) {
+            Ok(()) => (),
+            Err(msg) => {
+                rep.violation(format!("pipeline:{pass}:panic:{}", panic_site(&msg)), None, format!("pass {pass} (in pipeline order) panicked: {msg}"), case(), 500);
+                break;
+            }
+        }
+        if next != cur {
+            interesting |= compare_versions(&cur, &next, &format!("pipeline:{pass}"), state_seed ^ 0x77, (n_states / 2).max(2), rep, &case);
+        }
+        cur = next;
+    }
+    // whole pipeline as the analyzer runs it
+    let mut full = base.clone();
+    match guard(|| apply_pass(&mut full, "normalize_optimize")) {
+        Ok(()) => {
+            if full != cur {
+                // Not a C10 matter (both results are judged by execution); recorded because it shows that the
+                // optimiser's output depends on hash iteration order (relevant for C23).
+                rep.obs("normalize_optimize-differs-from-pass-sequence(nondeterministic-output)");
+            }
+            if full != *base {
+                interesting |= compare_versions(base, &full, "normalize_optimize", state_seed ^ 0x99, n_states, rep, &case);
+            }
+        }
+        Err(msg) => rep.violation(format!("normalize_optimize:panic:{}", panic_site(&msg)), None, format!("normalize_optimize panicked: {msg}"), case(), 500),
+    }
+    if any_change && interesting {
+        rep.nontrivial(fp_of(&base.program));
+    }
+    let nblocks: usize = base.program.term.subs.values().map(|s| s.term.blocks.len()).sum();
+    rep.obs(&format!("blocks:{}", nblocks.min(20)));
+}
+
+pub const KNOWN_CALLOTHER: &str = "c10-callother-no-cfg-edge";
+
+/// The same program with every returning CALLOTHER replaced by an indirect call (which has a stub edge in the CFG).
+fn callother_variant(base: &Project) -> Project {
+    let mut p = base.clone();
+    let mut k = 0i64;
+    for sub in p.program.term.subs.values_mut() {
+        for blk in sub.term.blocks.iter_mut() {
+            for j in blk.term.jmps.iter_mut() {
+                if let Jmp::CallOther { return_, .. } = &j.term {
+                    k += 1;
+                    j.term = Jmp::CallInd { target: e_const(0xCA11_0000 + k, 8), return_: return_.clone() };
+                }
+            }
+        }
+    }
+    p
+}
+
+/// Workload with CALLOTHER jumps. CALLOTHER has (by a documented TODO in the CFG builder) no edge in the
+/// control flow graph, so passes that rely on the CFG mis-handle its return site. Discriminator for that
+/// known finding: the violation disappears when every CALLOTHER is replaced by an indirect call.
+pub fn check_callother_project(base: &Project, state_seed: u64, n_states: usize, rep: &mut Report) {
+    let mut tmp = Report::new();
+    check_project(base, state_seed, n_states, &mut tmp);
+    if !tmp.violations.is_empty() {
+        let variant = callother_variant(base);
+        let mut tmp2 = Report::new();
+        check_project(&variant, state_seed, n_states, &mut tmp2);
+        let accepted = tmp2.violations.is_empty();
+        let old = std::mem::take(&mut tmp.violations);
+        for (sig, mut v) in old {
+            v.signature = format!("callother-workload:{sig}");
+            v.known_key = if accepted { Some(KNOWN_CALLOTHER.to_string()) } else { None };
+            if let Some(obj) = v.case.as_object_mut() {
+                obj.insert("workload".into(), json!("callother"));
+            }
+            tmp.violations.insert(v.signature.clone(), v);
+        }
+        tmp.obs(if accepted { "callother:violation-matches-known-finding" } else { "callother:violation-not-explained" });
+    }
+    rep.merge(tmp);
+}
+
+fn run(cfg: &Cfg) -> Report {
+    let shards = cfg.tier.pick(256usize, 4096usize);
+    let per_shard = cfg.tier.pick(40usize, 60usize);
+    let n_states = cfg.tier.pick(16usize, 96usize);
+    par_shards(cfg, "c10", shards, |idx, rng, rep| {
+        for i in 0..per_shard {
+            let callother = idx % 8 == 7;
+            let project = match guard(|| gen_project(rng, false, callother)) {
+                Ok(p) => p,
+                Err(msg) => {
+                    rep.inconclusive(&format!("generator-or-normalize_basic-panic:{}", panic_site(&msg)));
+                    continue;
+                }
+            };
+            let state_seed = rng.next_u64();
+            if callother {
+                check_callother_project(&project, state_seed, n_states, rep);
+                rep.obs("workload:callother");
+            } else {
+                check_project(&project, state_seed, n_states, rep);
+                rep.obs("workload:main");
+            }
+            if idx == 0 && i < 2 {
+                rep.sample(json!({"program": show_program(&project.program.term), "state_seed": state_seed, "initial_states": n_states}));
+            }
+        }
+    })
+}
+
+fn replay(_cfg: &Cfg, case: &Value) -> Report {
+    let mut rep = Report::new();
+    match project_from_json(&case["project"]) {
+        Ok(project) => {
+            let seed = case["state_seed"].as_u64().unwrap_or(1);
+            let n = case["n_states"].as_u64().unwrap_or(16) as usize;
+            if case["workload"] == json!("callother") {
+                check_callother_project(&project, seed, n, &mut rep);
+            } else {
+                check_project(&project, seed, n, &mut rep);
+            }
+        }
+        Err(e) => rep.note(format!("cannot parse replay case: {e}")),
+    }
+    rep
 }
